@@ -144,6 +144,9 @@ func ruleR29(c *Ctx) {
 						}
 						nCalls++
 						okWhy, bad := classify(a, fs, true)
+						if bad != "" && fl.freshExpr(a, fs, 0) {
+							okWhy, bad = "the written slice is memory allocated by this call", ""
+						}
 						if name == "builtin.append" {
 							// append to a local slice variable that was built by this call
 							if v := identVar(info, a); v != nil && localTo(v) && (fs.isFresh(v)) {
